@@ -46,6 +46,20 @@ const RESERVED: &[&str] = &[
     "void",
     "while",
     "with",
+    // Reserved in strict mode code (generated files are ES modules, which are always strict)
+    "arguments",
+    "await",
+    "enum",
+    "eval",
+    "implements",
+    "interface",
+    "let",
+    "package",
+    "private",
+    "protected",
+    "public",
+    "static",
+    "yield",
 ];
 
 /// From https://developer.mozilla.org/en-US/docs/Web/JavaScript/Reference/Global_Objects.
